@@ -19,6 +19,7 @@ pub fn avoid_all() -> Avoid {
         unsub_in_group: false,
         group_stall: true,
         recycled_id: true,
+        persistent_unsub: true,
     }
 }
 
@@ -63,6 +64,10 @@ pub fn main_campaign() -> SimCampaign {
             min_clients: 2,
             max_clients: 5,
             max_chunks: 45,
+            // clean-session clients also leave (DISCONNECT, link failure) and come back
+            w_disconnect: 2,
+            w_droplink: 2,
+            w_reconnect: 4,
             ..GenCfg::default()
         },
         flags: Flags {
@@ -70,8 +75,8 @@ pub fn main_campaign() -> SimCampaign {
             avoid: avoid_all(),
             ..Flags::default()
         },
-        quick: 6000,
-        thorough: 20_000,
+        quick: 20000,
+        thorough: 400000,
         nontrivial,
         probes: vec![],
         shape: None,
@@ -121,7 +126,7 @@ pub fn plan(_tier: Tier) -> Plan {
     Plan {
         campaigns: vec![Box::new(main_campaign()), Box::new(probe_r6()), Box::new(probe_r7())],
         enumerators: vec![],
-        rule: "Histories of connect/subscribe/unsubscribe/publish(QoS0-2, bursts up to 260)/release/ack/drain/turn/settle ops by 2-5 well-behaved clients against the real router stepped turn by turn, over generated router configurations (segment size/count, outgoing batch size). Non-trivial: a client holds >=2 subscriptions on overlapping filters, a publish matches >=2 of them, at least one forward was observed and at least one of {inflight-full pause, busy/Unschedule pause, park-then-wake} occurred; distinct by hash of the whole history.".into(),
+        rule: "Histories of connect/disconnect/link-failure/reconnect (clean sessions)/subscribe/unsubscribe/publish(QoS0-2, bursts up to 260)/release/ack/drain/turn/settle ops by 2-5 well-behaved clients against the real router stepped turn by turn, over generated router configurations (segment size/count, outgoing batch size). Non-trivial: a client holds >=2 subscriptions on overlapping filters, a publish matches >=2 of them, at least one forward was observed and at least one of {inflight-full pause, busy/Unschedule pause, park-then-wake} occurred; distinct by hash of the whole history.".into(),
         assumptions: vec![
             "The router is single-threaded; links interact with it only through the event channel and two mutex-protected buffers, so every real schedule is a partition of the event sequence into turns plus drain points — which is what the generator draws".into(),
             "Completeness is asserted only for streams whose unread backlog stayed below (segment_count-1)*segment_size bytes (retention-relaxed streams keep the safety clauses)".into(),
